@@ -34,7 +34,7 @@ func main() {
 
 	// registry
 	var b strings.Builder
-	b.WriteString("//go:build gencode\n\npackage gen\n\nimport vc \"" + pkgRoot + "/" + env.Namespace + "\"\n\n")
+	b.WriteString("//go:build gencode\n\npackage gen\n\nimport (\n\tvc \"" + pkgRoot + "/" + env.Namespace + "\"\n\t\"github.com/PapaCharlie/go-restli/v2/restlicodec\"\n\t\"github.com/PapaCharlie/go-restli/v2/restlidata/generated/com/linkedin/restli/common\"\n)\n\n")
 	b.WriteString("var New = map[string]func() any{\n")
 	names := []string{}
 	for _, d := range env.Decls {
@@ -48,6 +48,13 @@ func main() {
 	for _, n := range names {
 		if env.Find(n).Kind == "record" {
 			fmt.Fprintf(&b, "\t%q: func() any { return new(vc.%s_PartialUpdate) },\n", n, utils.ExportedIdentifier(n))
+		}
+	}
+	b.WriteString("}\n\nvar BatchEnc = map[string]func(keys []int64, vals []any, w any) error{\n")
+	for _, n := range names {
+		if env.Find(n).Kind == "record" {
+			id := utils.ExportedIdentifier(n)
+			fmt.Fprintf(&b, "\t%q: func(keys []int64, vals []any, w any) error {\n\t\tm := map[int64]*vc.%s{}\n\t\tfor i, k := range keys {\n\t\t\tm[k] = vals[i].(*vc.%s)\n\t\t}\n\t\treturn common.MarshalBatchEntities(m, w.(restlicodec.Writer))\n\t},\n", n, id, id)
 		}
 	}
 	b.WriteString("}\n\nvar Defaults = map[string]func() any{\n")
